@@ -15,6 +15,10 @@ S4  WarmUp_Trace.tla / MemAdaptive_Trace.tla (TLC) judge every recorded decision
 The control behaviour is a parameter of the rule in every stage: Reject (the threshold caps the tokens of the window) and
 Throttling (the threshold spaces the admissions: saturating demand paced on the virtual clock, judged by the same envelope
 read as pacing).  S1 also runs the spec-level mutant "a throttling rule reads an empty statistic": WarmAfterSat must fail.
+The rule parameters are STATE: rules are replaced under traffic (WarmUp!Reload, MemAdaptive!Reload, driver op reload, trace
+event reload); the clauses are restated for the rule in force and E5 / ProgressOK bounds what a reloaded rule may admit by
+the warm-up progress the history of the resource justifies (WarmUpOps, "a rule REPLACED under traffic").  Spec-level mutant
+"the new calculator inherits the raw token count": ProgressOK must fail.
 This is a transcription check with tolerances, not a proof about float arithmetic.
 """
 import json, os, sys
@@ -59,6 +63,10 @@ def classify(c, scn, exp):
     except Exception:
         return None
     why = e.get('why', '')[:2]
+    if 'rule' in e:
+        # a mismatch after a reload: the class of the rule in force; E5 (warmer than the history justifies) is E2's clause there
+        cfg = dict(tn=e['rule'][0], td=e['rule'][1], p=e['rule'][2], c=e['rule'][3])
+        why = 'E2' if why == 'E5' else why
     cls = wu_class(cfg)
     W = wu_params(cfg)[4]
     if cls == 'degenerate' and why in ('E1', 'E2'):
@@ -83,21 +91,25 @@ def classify(c, scn, exp):
 
 
 # ----------------------------------------------------------------------------- TLC configurations
-def wu_cfg(configs, scope, excuse, inv, emit=False, mut='none'):
+def wu_cfg(configs, scope, excuse, inv, emit=False, mut='none', targets='NoTargets', maxreload=0):
     return """SPECIFICATION Spec
 CONSTANTS
   Configs <- %s
   Mut = "%s"
+  Targets <- %s
+  MaxReload = %d
+  LCMP = 10
   SAT = SAT
   InScope <- %s
   ExcuseStuck = %s
 VIEW view
 %s
 CHECK_DEADLOCK FALSE
-%s""" % (configs, mut, scope, 'TRUE' if excuse else 'FALSE', ('INVARIANTS ' + inv) if inv else '', 'ACTION_CONSTRAINT Emit\n' if emit else '')
+%s""" % (configs, mut, targets, maxreload, scope, 'TRUE' if excuse else 'FALSE', ('INVARIANTS ' + inv) if inv else '',
+         'ACTION_CONSTRAINT Emit\n' if emit else '')
 
 
-ENVELOPE_INV = 'TypeOK AllowedDefined AllowedInRange AdmittedLeT ColdAfterIdle ColdAfterIdleObs WarmAfterSat WarmAfterSatThr NoStarvation'
+ENVELOPE_INV = 'TypeOK AllowedDefined AllowedInRange AdmittedLeT ColdAfterIdle ColdAfterIdleObs WarmAfterSat WarmAfterSatThr NoStarvation ProgressOK'
 
 
 def mem_cfg(maxthr, maxmem):
@@ -125,7 +137,14 @@ def from_secs(hist, tr, rng, off=None, q=None):
         off = rng.choice([0, 0, 1, 7]) if off is None else off
         q = rng.choice(QUEUES) if q is None else q
         out = [dict(op='new', tr=tr, kind='warmup', t=1000 + off, tn=cfg['tn'], td=cfg['td'], p=cfg['p'], c=cfg['c'], cb=1, q=q)]
-        for k, o in enumerate(hist[1:]):
+        k = -1
+        for o in hist[1:]:
+            if o.get('op') == 'reload':
+                # the rule is replaced at the start of the next second (before its demand)
+                out.append(dict(op='at', t=1000 + off + 1000 * (k + 1)))
+                out.append(reload_op(o, rng, q))
+                continue
+            k += 1
             start = 1000 + off + 1000 * k
             if k:
                 out.append(dict(op='at', t=start))
@@ -139,13 +158,28 @@ def from_secs(hist, tr, rng, off=None, q=None):
     off = rng.choice([0, 1, 7, 250, 499]) if off is None else off
     out = [dict(op='new', tr=tr, kind='warmup', t=1000 + off, tn=cfg['tn'], td=cfg['td'], p=cfg['p'], c=cfg['c'])]
     first = True
+    pending = []
     for o in hist[1:]:
+        if o.get('op') == 'reload':
+            pending.append(reload_op(o, rng, 0))         # the rule is replaced at the start of the next second (before its demand)
+            continue
         if not first:
             out.append(dict(op='tick', d=1000))
         first = False
+        out += pending
+        pending = []
         if o['n'] > 0:
             out.append(dict(op='burst', n=o['n']))
-    return out
+    return out + pending
+
+
+def reload_op(o, rng, q):
+    r = dict(op='reload', tn=o['tn'], td=o['td'], p=o['p'], c=o['c'])
+    if o.get('cb'):
+        r.update(cb=1, q=q)
+    if (rng.random() if rng else (o['tn'] % 2) * 0.9) < 0.5:
+        r['via'] = 'res'           # flow.LoadRulesOfResource instead of flow.LoadRules
+    return r
 
 
 THRESHOLDS = [(0, 1), (1, 4), (1, 2), (3, 4), (1, 1), (3, 2), (2, 1), (5, 2), (3, 1), (4, 1), (5, 1), (6, 1), (7, 1), (8, 1),
@@ -216,6 +250,123 @@ def fixed_warmup(first_tr):
     return out
 
 
+# ----------------------------------------------------------------------------- rules replaced under traffic
+def sat_n(cfg):
+    return cfg['tn'] // cfg['td'] + 2
+
+
+def healthy(cfg):
+    return wu_class(cfg) == 'healthy' and cfg['tn'] >= cfg['td']
+
+
+def changed_cfg(rng, cfg):
+    """a healthy rule that differs from cfg in the threshold, the period, the cold factor or all of them"""
+    for _ in range(200):
+        new = dict(cfg)
+        what = rng.choice(['t', 't', 't', 'p', 'p', 'c', 'all'])
+        if what in ('t', 'all'):
+            new['tn'], new['td'] = rng.choice(THRESHOLDS)
+        if what in ('p', 'all'):
+            new['p'] = rng.choice(PERIODS)
+        if what in ('c', 'all'):
+            new['c'] = rng.choice(COLDS)
+        if healthy(new) and any(new[k] != cfg[k] for k in ('tn', 'td', 'p', 'c')):
+            return new
+    return None
+
+
+def fixed_reload(first_tr):
+    """directed: (a) a cold rule gets a bigger threshold, (b) a warm rule a smaller one, (c) a longer period, (d) a bigger cold factor,
+    (e) an identical rule in the middle of the warm-up, (f) a new rule after an idle period, (g) a bigger threshold and a shorter
+    period after one cold second, (h) two raises in a row, (i) the raise of the seeded change's demonstration scaled to the model's
+    thresholds; saturating demand before and after, both control behaviours.  Returns (scenarios, trace numbers of the family
+    "cold rule gets a bigger threshold")"""
+    fam = [('a', (4, 1, 5, 3), 1, [((16, 1, 5, 3), None)]),
+           ('b', (16, 1, 2, 2), 8, [((4, 1, 2, 2), None)]),
+           ('c', (10, 1, 1, 3), 2, [((10, 1, 6, 3), None)]),
+           ('d', (10, 1, 2, 2), 2, [((10, 1, 2, 5), None)]),
+           ('e', (10, 1, 4, 3), 3, [((10, 1, 4, 3), None)]),
+           ('f', (10, 1, 2, 3), 8, [((12, 1, 2, 3), 'idle')]),
+           ('g', (6, 1, 6, 3), 1, [((16, 1, 1, 3), None)]),
+           ('h', (5, 1, 3, 0), 2, [((10, 1, 3, 0), None), ((16, 1, 3, 0), None)]),
+           ('a', (2, 1, 5, 2), 1, [((16, 1, 5, 2), None)]),
+           ('a', (3, 1, 6, 3), 1, [((15, 2, 6, 3), None)]),
+           ('a', (5, 1, 6, 3), 2, [((16, 1, 6, 3), None)]),
+           ('a', (4, 1, 4, 0), 1, [((12, 1, 4, 0), None)])]
+    out, cold_raise = [], set()
+    for cb, q in ((0, 0), (1, 20), (1, 2000)):
+        for name, old, pre, steps in fam:
+            def mk(t):
+                return dict(tn=t[0], td=t[1], p=t[2], c=t[3], cb=cb)
+            cfg = mk(old)
+            hist = [cfg] + [dict(n=sat_n(cfg), pace=True)] * pre
+            for new, how in steps:
+                if how == 'idle':
+                    hist += [dict(n=0)] * (2 * cfg['p'] + 3)
+                cfg = mk(new)
+                hist.append(dict(op='reload', **cfg))
+                hist += [dict(n=sat_n(cfg), pace=True)] * (2 if (new, how) != steps[-1] else 2 * cfg['p'] + 6)
+            tr = first_tr + len(out)
+            out.append(from_secs(hist, tr, None, off=7 if len(out) % 2 else 0, q=q))
+            if name == 'a' and cb == 0:
+                cold_raise.add(tr)
+    return out, cold_raise
+
+
+def random_reload(c, n, first_tr):
+    rng = c.rng
+    scns = []
+    while len(scns) < n:
+        tr = first_tr + len(scns)
+        tn, td = rng.choice(THRESHOLDS)
+        cfg = dict(tn=tn, td=td, p=rng.choice(PERIODS), c=rng.choice(COLDS), cb=1 if rng.random() < 0.3 else 0)
+        if not healthy(cfg):
+            continue
+        q = rng.choice(QUEUES) if cfg['cb'] else 0
+
+        def phase(cfg, hist, kinds, lens):
+            kind = rng.choice(kinds)
+            for _ in range(rng.choice(lens)):
+                T = cfg['tn'] // cfg['td']
+                nreq = dict(sat=T + 2, idle=0, steady=1, rand=rng.randint(0, T + 2))[kind]
+                hist.append(dict(n=nreq, pace=True) if kind == 'sat' else dict(n=nreq, burst=True))
+        if cfg['cb'] == 0 and rng.random() < 0.25:
+            # free-running: the reload falls anywhere (middle of a second, of a window, between two requests of one instant)
+            s = [dict(op='new', tr=tr, kind='warmup', t=rng.choice([1, 500, 999, 1000, 1234]), tn=tn, td=td, p=cfg['p'], c=cfg['c'])]
+            nre = rng.randint(1, 3)
+            total = rng.randint(30, 120)
+            at = sorted(rng.sample(range(total), nre))
+            for i in range(total):
+                if i in at:
+                    new = cfg if rng.random() < 0.15 else changed_cfg(rng, cfg)
+                    if new:
+                        cfg = dict(new, cb=0)
+                        s.append(reload_op(cfg, rng, 0))
+                if rng.random() < 0.6:
+                    s.append(dict(op='req', b=rng.choice([1, 1, 1, 1, 2, 3])))
+                else:
+                    s.append(dict(op='tick', d=rng.choice([0, 1, 100, 250, 499, 500, 501, 1000, 1000, 2000, rng.randint(0, 1500),
+                                                           1000 * (2 * cfg['p'] + 3)])))
+            scns.append(s)
+            continue
+        hist = [cfg]
+        p = cfg['p']
+        phase(cfg, hist, ['sat', 'sat', 'sat', 'steady', 'rand'], [1, 2, 3, p, p + 1, 2 * p + 3])
+        for _ in range(rng.randint(1, 2)):
+            if rng.random() < 0.2:
+                phase(cfg, hist, ['idle'], [1, 2, 2 * p + 3])
+            new = cfg if rng.random() < 0.15 else changed_cfg(rng, cfg)
+            if not new:
+                continue
+            cfg = dict(new, cb=cfg['cb'])
+            p = cfg['p']
+            hist.append(dict(op='reload', **cfg))
+            phase(cfg, hist, ['sat', 'sat', 'sat', 'steady', 'rand', 'idle'], [1, 2, p + 1, 2 * p + 4])
+        phase(cfg, hist, ['sat'], [2, 2 * p + 4])
+        scns.append(from_secs(hist[:70], tr, rng, q=q))
+    return scns
+
+
 def random_mem(c, n, first_tr):
     rng = c.rng
     scns = []
@@ -230,7 +381,25 @@ def random_mem(c, n, first_tr):
             # the same rule enforced by the throttling checker: a probe is one second of saturating demand (paced admissions)
             s[0].update(cb=1, q=rng.choice([1, 5, 50, 500]))
         cand = [-1, 0, lw - 1, lw, lw + 1, hw - 1, hw, hw + 1, 2 * hw, (lw + hw) // 2] + [rng.randint(lw, hw) for _ in range(6)]
-        for _ in range(rng.randint(5, 12)):
+        nprobe = rng.randint(5, 12)
+        reload_at = set(rng.sample(range(1, nprobe), rng.randint(1, 2))) if rng.random() < 0.35 else set()
+        for k in range(nprobe):
+            if k in reload_at:
+                # the rule is replaced between two probes: other thresholds, other water marks, or the identical rule
+                x = rng.random()
+                if x < 0.4:
+                    low = rng.choice([2, 3, 5, 8, 10, 17, 30])
+                    high = rng.randint(1, low - 1)
+                elif x < 0.8:
+                    lw = rng.choice([1, 2, 100, 1000, 4096, 1 << 20])
+                    hw = lw + rng.choice([1, 2, 3, 7, 10, 100, 1000, 1 << 20])
+                r = dict(op='reload', low=low, high=high, lw=lw, hw=hw)
+                if s[0].get('cb'):
+                    r.update(cb=1, q=s[0]['q'])
+                if rng.random() < 0.5:
+                    r['via'] = 'res'
+                s.append(r)
+                cand += [lw - 1, lw, lw + 1, hw - 1, hw, hw + 1, (lw + hw) // 2] + [rng.randint(lw, hw) for _ in range(4)]
             s.append(dict(op='probe', mem=rng.choice(cand), n=low + 2))
         scns.append(s)
     return scns
@@ -339,7 +508,7 @@ def binding_selftest_throttle(c, tp, scns):
     than the warm-up), delay the last admission that was made to wait by one more spacing 1/T (must be rejected)"""
     allsat = {s[0]['tr'] for s in scns if s[0].get('cb') and s[0].get('q', 0) > 0 and wu_class(s[0]) == 'healthy'
               and s[0]['tn'] >= s[0]['td'] and all(o['op'] in ('new', 'at', 'pace') for o in s)
-              and sum(1 for o in s if o['op'] == 'pace') >= 2 * s[0]['p'] + 5}
+              and trailing_pace_run(s) >= 2 * s[0]['p'] + 5}
     bad = []
     for t in split_traces(tp):
         if t[0]['tr'] not in allsat or len(bad) >= 25:
@@ -366,13 +535,60 @@ def binding_selftest_throttle(c, tp, scns):
     c.log('binding self-test (throttling): ' + c.cov['binding_selftest_throttle'])
 
 
+def same_as_before(s, k):
+    """the reload at position k of scenario s loads the rule that is already in force"""
+    cur = s[0]
+    for o in s[1:k]:
+        if o['op'] == 'reload':
+            cur = o
+    return all(cur.get(f, 0) == s[k].get(f, 0) for f in ('tn', 'td', 'p', 'c', 'cb', 'q'))
+
+
+def binding_selftest_reload(c, tp, cold_raise):
+    """E5: in the directed traces "a cold reject rule gets a bigger threshold" turn the rejections of the second of the reload into
+    admissions up to the NEW threshold (what a raw carry-over of the token count does): must be rejected by E5"""
+    bad = []
+    for t in split_traces(tp):
+        if t[0]['tr'] not in cold_raise:
+            continue
+        i = [k for k, e in enumerate(t) if e['op'] == 'reload'][0]
+        T = t[i]['tn'] // t[i]['td']
+        t2 = [dict(e) for e in t]
+        cnt = 0
+        for e in t2[i + 1:]:
+            if e['op'] != 'req':
+                break
+            if cnt < T:
+                e['ok'] = True
+                cnt += 1
+        bad.append(t2)
+    for k, t in enumerate(bad):
+        t[0]['tr'] = k + 1
+    cp = os.path.join(c.scratch, 'corrupt-reload.ndjson')
+    write_ndjson(cp, [e for t in bad for e in t])
+    got = set()
+    if bad:
+        mism, consumed, r = c.validate('WarmUp_Trace', cp, sum(len(t) for t in bad))
+        got = {m[0] for m in mism if '"E5' in m[2]}
+    if len(bad) < 3 or got != set(range(1, len(bad) + 1)):
+        c.inconclusive.append('reload binding self-test failed: %d traces with the full new threshold admitted at once after the reload, '
+                              '%d rejected (E5)' % (len(bad), len(got)))
+        return
+    c.cov['binding_selftest_reload'] = ('%d traces "cold rule reloaded with a bigger threshold" with the full new threshold admitted in the second '
+                                        'of the reload: all rejected by E5 (warmer than the history justifies)' % len(bad))
+    c.log('binding self-test (reload): ' + c.cov['binding_selftest_reload'])
+
+
 def binding_selftest_mem(c, tp):
     traces = split_traces(tp)[:40]
     want = set()
     for k, t in enumerate(traces):
         t[0]['tr'] = k + 1
+        rule = t[0]
         for e in t[1:]:
-            if e['op'] == 'probe' and (e['mem'] <= t[0]['lw'] or e['mem'] >= t[0]['hw']) and e['k'] < e['n']:
+            if e['op'] == 'reload':
+                rule = e            # (the water marks of the rule in force)
+            if e['op'] == 'probe' and (e['mem'] <= rule['lw'] or e['mem'] >= rule['hw']) and e['k'] < e['n']:
                 e['k'] += c.rng.choice([-1, 1]) if e['k'] + 1 < e['n'] else -1
                 want.add(k + 1)
                 break
@@ -431,6 +647,21 @@ def handle_mismatches(c, drv, scns, mism, tag, module):
             os.remove(rp)
         else:
             c.violation(what + (' [signature %s]' % key if key else ''), rp)
+
+
+def trailing_pace_run(s):
+    """consecutive seconds of saturating (paced) demand at the end of a throttling scenario built by from_secs"""
+    cur = 0
+    paced = False
+    for o in s[1:] + [dict(op='at')]:
+        if o['op'] == 'at':             # the start of the next second
+            cur = cur + 1 if paced else 0
+            paced = False
+        elif o['op'] == 'pace':
+            paced = True
+        else:
+            cur = 0
+    return cur
 
 
 def max_pace_run(s):
@@ -502,6 +733,21 @@ def check(c, tier, replay):
         c.cov['spec_mutant_nopstat'] = 'WarmUp.tla with Mut = "nopstat" on the throttling configurations: %s violated after %d states' % (
             r.violated, r.distinct)
         c.log('S1 mutant (throttling rule reads an empty statistic): %s violated, %d distinct states' % (r.violated, r.distinct))
+        # rules replaced under traffic: Reload action (healthy rule -> healthy rule, same control behaviour), up to two reloads
+        for cfgs, tg, mr in ([('RLConfigs', 'RLTargets', 1)] if not thorough else [('RLConfigs', 'RLTargets', 2), ('RLConfigsBig', 'RLTargetsBig', 1)]):
+            r = c.model_check('WarmUp_MC', cfg_text=wu_cfg(cfgs, 'ScopeHealthy', False, ENVELOPE_INV, targets=tg, maxreload=mr),
+                              workers=8, timeout=1500)
+            if not r.completed:
+                c.inconclusive.append('WarmUp.tla with reloads (%s, %d reload(s)): %s violated' % (cfgs, mr, r.violated))
+        # spec-level mutant: the new calculator inherits the raw token count of the old one - the progress bound must fail
+        r = c.tlc('WarmUp_MC', cfg_text=wu_cfg('RLConfigs', 'ScopeHealthy', False, ENVELOPE_INV, mut='rawcarry', targets='RLTargets', maxreload=1),
+                  workers=8, timeout=600)
+        if r.violated != 'ProgressOK':
+            c.inconclusive.append('WarmUp.tla mutant "raw token carry-over at a reload": expected ProgressOK to fail, got %s'
+                                  % (r.violated or r.error or 'no error'))
+        c.cov['spec_mutant_rawcarry'] = 'WarmUp.tla with Mut = "rawcarry" (Reload keeps the raw tokens): %s violated after %d states' % (
+            r.violated, r.distinct)
+        c.log('S1 mutant (reload keeps the raw token count): %s violated, %d distinct states' % (r.violated, r.distinct))
         r = c.model_check('MemAdaptive_MC', cfg_text=mem_cfg(6 if not thorough else 9, 8 if not thorough else 12), workers=8, timeout=1500)
         if not r.completed:
             c.inconclusive.append('MemAdaptive.tla: %s violated' % r.violated)
@@ -548,7 +794,25 @@ def check(c, tier, replay):
     for hh in sim:
         tr += 1
         sim_scns.append(from_secs(hh, tr, c.rng))
-    c.log('S2: %d lead scenarios, %d TLC-simulated demand histories' % (len(lead_scns), len(sim_scns)))
+    nrl = 120 if not thorough else 1500
+    r = c.tlc('WarmUp_MC', cfg_text=wu_cfg('RLConfigsBig', 'ScopeAll', False, '', emit=True, targets='RLTargetsBig', maxreload=2), workers=1,
+              timeout=900, count=False, args=['-simulate', 'num=%d' % (3 * nrl), '-depth', '40', '-seed', str(c.seed + 1)])
+    simrl = [hh for hh in maximal(r.json_prints()) if any(o.get('op') == 'reload' for o in hh)]
+    simrl = sorted(simrl, key=lambda hh: json.dumps(hh))
+    simrl = c.rng.sample(simrl, min(nrl, len(simrl)))
+    if len(simrl) < nrl // 3:
+        raise MachineryError('TLC simulation produced only %d behaviours with a reload\n%s' % (len(simrl), r.out[-2000:]))
+    fx, cold_raise = fixed_reload(tr + 1)            # (directed first: the reload self-test uses the first chunk)
+    rl_scns = list(fx)
+    tr += len(fx)
+    for hh in simrl:
+        tr += 1
+        rl_scns.append(from_secs(hh, tr, c.rng))
+    nrr = 140 if not thorough else 2500
+    rl_scns += random_reload(c, nrr, tr + 1)
+    tr += nrr
+    c.log('S2: %d lead scenarios, %d TLC-simulated demand histories, %d histories with reloads (%d TLC-simulated, %d directed, %d random)' % (
+        len(lead_scns), len(sim_scns), len(rl_scns), len(simrl), len(fx), nrr))
     nrand = 360 if not thorough else 5500          # (30 % throttling rules)
     rand_scns = fixed_warmup(tr + 1)
     tr += len(rand_scns)
@@ -560,7 +824,7 @@ def check(c, tier, replay):
     # S3 + S4 ----------------------------------------------------------------------------
     seen_lead_keys = set()
     for tag, group, module in (('lead', lead_scns, 'WarmUp_Trace'), ('sim', sim_scns, 'WarmUp_Trace'), ('rand', rand_scns, 'WarmUp_Trace'),
-                               ('mem', mem_scns, 'MemAdaptive_Trace')):
+                               ('reload', rl_scns, 'WarmUp_Trace'), ('mem', mem_scns, 'MemAdaptive_Trace')):
         for i in range(0, len(group), 1500):
             part = group[i:i + 1500]
             mism, drift, tp = run_and_validate(c, drv, part, '%s%d' % (tag, i), module)
@@ -576,13 +840,19 @@ def check(c, tier, replay):
             if tag == 'rand' and i == 0:
                 binding_selftest_warmup(c, tp)
                 binding_selftest_throttle(c, tp, part)
+            if tag == 'reload' and i == 0:
+                binding_selftest_reload(c, tp, cold_raise)
             if tag == 'mem' and i == 0:
                 binding_selftest_mem(c, tp)
             handle_mismatches(c, drv, part, mism, tag, module)
-    allwu = lead_scns + sim_scns + rand_scns
+    allwu = lead_scns + sim_scns + rand_scns + rl_scns
     def nontrivial(s):
         if s[0]['kind'] == 'mem':
             return sum(1 for o in s if o['op'] == 'probe' and s[0]['lw'] < o['mem'] < s[0]['hw']) >= 2
+        if s[0]['kind'] == 'warmup' and any(o['op'] == 'reload' for o in s):
+            # a reload under traffic: requests before and after it
+            i = [k for k, o in enumerate(s) if o['op'] == 'reload'][0]
+            return any(o['op'] in ('burst', 'req', 'pace') for o in s[:i]) and any(o['op'] in ('burst', 'req', 'pace') for o in s[i:])
         secs = sum(1 for o in s if o['op'] in ('tick', 'at'))
         return secs >= s[0]['p'] + 2 and any(o['op'] in ('burst', 'req', 'pace') for o in s)
     c.cov['distinct_nontrivial'] = len({json.dumps(s[1:] + [{k: v for k, v in s[0].items() if k != 'tr'}], sort_keys=True)
@@ -592,6 +862,11 @@ def check(c, tier, replay):
                      'than the warm-up period + 2 s of virtual time, or (memory-adaptive) probes at least two readings strictly between the '
                      'water marks' % (len(lead_scns), len(sim_scns), nrand, nmem))
     c.cov['warmup_classes'] = {k: sum(1 for s in allwu if wu_class(s[0]) == k) for k in ('healthy', 'degenerate', 'cold-below-one', 'never-cold')}
+    c.cov['reloads'] = dict(warmup_histories_with_reload=len(rl_scns), tlc_simulated=len(simrl), directed=len(fx), random=nrr,
+                            reload_events=sum(1 for s in rl_scns for o in s if o['op'] == 'reload'),
+                            identical_reloads=sum(1 for s in rl_scns for k, o in enumerate(s) if o['op'] == 'reload' and same_as_before(s, k)),
+                            throttling=sum(1 for s in rl_scns if s[0].get('cb')),
+                            mem_histories_with_reload=sum(1 for s in mem_scns if any(o['op'] == 'reload' for o in s)))
     c.cov['control_behaviour'] = dict(warmup_reject=sum(1 for s in allwu if not s[0].get('cb')), warmup_throttling=sum(1 for s in allwu if s[0].get('cb')),
                                       warmup_throttling_saturated_past_warmup=sum(
                                           1 for s in allwu if s[0].get('cb') and s[0].get('q', 0) > 0 and wu_class(s[0]) == 'healthy'
